@@ -212,9 +212,9 @@ def _mk_section(rnd):
     return BootSectionV2(rnd.getrandbits(16), *cmds, hmac_count=rnd.choice([1, 2, 4]))
 
 
-@contract("spsdk.sbfile.sb2.sections:BootSectionV2.export", replay=False)
-def _(self: Union[SECTION(1, 1), SECTION(2, 1), SECTION(1, 2), SECTION(2, 2), SECTION(2, 4)], dek: Union[Bytes(16), Bytes(32)], mac: Bytes(32),
-      counter: Obj(Counter, _nonce=Bytes(12), _ctr=Nat, _ctr_byteorder_encoding=Endianness)) -> bytes:
+@contract("spsdk.sbfile.sb2.sections:BootSectionV2.export", replay=False, split=3)
+def _(self: Union[SECTION(1, 1), SECTION(2, 1), SECTION(1, 2), SECTION(2, 2), SECTION(2, 4)], dek: Bytes(16), mac: Bytes(32),
+      counter: Obj(Counter, _nonce=Bytes(12), _ctr=Nat, _ctr_byteorder_encoding=Const(Endianness.LITTLE))) -> bytes:
     let(stream=cmd_stream(self), c0=counter._ctr, nonce=counter._nonce, order=counter._ctr_byteorder_encoding)
     let(B=len(stream) // 16, H=self._hmac_count if len(stream) // 16 >= self._hmac_count else len(stream) // 16)
     let(off=16 + 32 * (H + 1))
